@@ -2,29 +2,39 @@
 # Runs every self-test mutant (selftest/mutants/*.diff; *.fix.diff are applied in reverse) and every kept
 # seeded change (seeded/*/patch.diff) against the quick check of its property; prints one line per change.
 # A change whose file name starts with several ids (C02_C07_...) is run against each of them.
-# usage: tools/selftest.sh [tier]      exit 0 iff every change is caught by at least one of its properties
+# usage: tools/selftest.sh [tier] [parallel]     exit 0 iff every change is caught by at least one of its properties
+#   CAUGHT  = exit 1 with a VIOLATION line of that property;  INCONCL = the check refused to say "held" (exit 2);
+#   MISSED  = the check said "held"
 cd "$(dirname "$0")/.."
 TIER=${1:-quick}
-fail=0
-run() { # $1 = -R or "", $2 = diff, $3 = props (space separated), $4 = label
-  caught=""
-  for P in $3; do
-    out=$(tools/run_mutant.sh $1 "$2" $P $TIER 2>&1 | grep -v KNOWN-FINDING)
+PAR=${2:-2}
+one() { # $1 = -R or "-", $2 = diff, $3 = props (comma separated), $4 = label
+  R=""; [ "$1" = "-R" ] && R="-R"
+  caught=""; incon=""
+  for P in $(echo $3 | tr ',' ' '); do
+    out=$(tools/run_mutant.sh $R "$2" $P $TIER 2>&1 | grep -v KNOWN-FINDING)
     if echo "$out" | grep -q PATCH-FAILED; then caught="PATCH-FAILED"; break; fi
     nv=$(echo "$out" | grep -c '^VIOLATION property='$P)
     cl=$(echo "$out" | grep '^VIOLATION' | sed 's/.*# //' | cut -d' ' -f1 | sort -u | head -4 | tr '\n' ' ')
     [ "$nv" -gt 0 ] && caught="$caught $P[$cl]"
+    echo "$out" | grep -q '^INCONCLUSIVE property='$P && incon="$incon $P[$(echo "$out" | grep '^INCONCLUSIVE' | head -1 | sed 's/.*reason=//' | cut -c1-90)]"
   done
-  if [ -z "$caught" ] || [ "$caught" = "PATCH-FAILED" ]; then fail=1; echo "MISSED  $4 ($3) $caught"; else echo "CAUGHT  $4 by$caught"; fi
+  if [ "$caught" = "PATCH-FAILED" ]; then echo "MISSED  $4 ($3) PATCH-FAILED";
+  elif [ -n "$caught" ]; then echo "CAUGHT  $4 by$caught";
+  elif [ -n "$incon" ]; then echo "INCONCL $4 by$incon";
+  else echo "MISSED  $4 ($3)"; fi
 }
+export -f one
+export TIER
+{
 for f in selftest/mutants/*.diff; do
   b=$(basename $f)
-  props=$(echo $b | grep -o '^\(C[0-9][0-9]_\)*' | tr '_' ' ')
-  R=""; case $b in *.fix.diff) R="-R";; esac
-  run "$R" $f "$props" "$b"
+  props=$(echo $b | grep -o '^\(C[0-9][0-9]_\)*' | sed 's/_$//' | tr '_' ',')
+  R="-"; case $b in *.fix.diff) R="-R";; esac
+  echo "$R $f $props $b"
 done
 for d in seeded/*/; do
   id=$(basename $d); P=${id%%_*}
-  run "" $d/patch.diff "$P" "seeded/$id"
+  echo "- ${d}patch.diff $P seeded/$id"
 done
-exit $fail
+} | xargs -P $PAR -L 1 bash -c 'one "$0" "$1" "$2" "$3"' | sort -k2
